@@ -108,8 +108,17 @@ class C17(Check):
             events = [[0, chunks[j]] for j in arr]
             if rng.random() < 0.4:
                 events.insert(rng.randrange(len(events) + 1), [1, base + rng.randrange(0, len(chunks) + 1), [[rng.randrange(3), rng.randrange(3)]]])
+            ordered_last = [c for c in chunks if not c[3] and c[5]]
+            if ordered_last and rng.random() < 0.5:
+                # a FORWARD-TSN that really abandons an ordered message: cumulative TSN = its last fragment, stream
+                # list = its stream and sequence number; it arrives early so that later messages depend on it
+                c = rng.choice(ordered_last)
+                events.insert(rng.randrange(0, len(events) // 2 + 1), [1, c[0], [[c[1], c[2]]]])
+                events += [[0, x] for x in chunks if x[0] > c[0]]
             delta = (rng.choice(WRAPS32) - base - rng.randrange(0, len(chunks) + 2)) & 0xFFFFFFFF
-            return {"k": 3, "kind": "recv", "base": base, "events": events, "delta": delta}
+            # stream sequence numbers start just below the 16-bit wrap in the shifted run
+            sdelta = rng.choice([0, 65535, 65534, 65533, 65530, 32767, 32768])
+            return {"k": 3, "kind": "recv", "base": base, "events": events, "delta": delta, "sdelta": sdelta}
         if kind == "jitter":
             cap = rng.choice([4, 8, 16, 32, 128])
             seq = 1000
@@ -181,16 +190,18 @@ class C17(Check):
             return {"a": proj(a), "b": proj(b)}
         if kind == "recv":
             d = case["delta"]
+            sd = case.get("sdelta", 0)
             c1 = {"k": 0, "base": case["base"], "events": case["events"]}
             ev2 = []
             for e in case["events"]:
                 if e[0] == 0:
                     ch = list(e[1])
                     ch[0] = (ch[0] + d) & 0xFFFFFFFF
+                    ch[2] = (ch[2] + sd) & 0xFFFF
                     ev2.append([0, ch])
                 else:
-                    ev2.append([1, (e[1] + d) & 0xFFFFFFFF, e[2]])
-            c2 = {"k": 0, "base": (case["base"] + d) & 0xFFFFFFFF, "events": ev2}
+                    ev2.append([1, (e[1] + d) & 0xFFFFFFFF, [[x[0], (x[1] + sd) & 0xFFFF] for x in e[2]]])
+            c2 = {"k": 0, "base": (case["base"] + d) & 0xFFFFFFFF, "events": ev2, "ssn0": sd}
             r = C01mod.C01()
             return {"a": r.impl_run(c1), "b": r.impl_run(c2)}
         if kind == "jitter":
